@@ -47,6 +47,9 @@ def tree_snapshot(elem):
     return (elem.tag, elem.text, elem.tail, tuple(sorted(elem.attrib.items())), tuple(id(c) for c in elem), tuple(tree_snapshot(c) for c in elem))
 
 
+ERRLOG = []
+
+
 def run_item(item, held=None):
     """-> (result, purity_failures)"""
     H.setup_path()
@@ -131,11 +134,11 @@ def run_item(item, held=None):
                 r = b.close()
                 return ["badbody", X.from_etree(r) if r is not None else None], bad
         except Exception as e:
-            if os.environ.get("VERIF_TRACE_DIR"):
+            if not isinstance(e, (ValueError, TypeError, AttributeError, KeyError)) and type(e).__name__ not in ("ParseError", "OFXHeaderError") and len(ERRLOG) < 20:
                 import traceback
 
-                with open(os.path.join(os.environ["VERIF_TRACE_DIR"], "c17-%d-%d.txt" % (os.getpid(), threading.get_ident())), "a") as f:
-                    f.write(traceback.format_exc() + "\n")
+                # kept for the failure report only (never compared): where an unusual exception came from
+                ERRLOG.append(f"{kind}: " + traceback.format_exc()[-700:])
             return ["raised", type(e).__name__], bad
     raise H.HarnessError(item)
 
@@ -221,7 +224,7 @@ def check_case(case):
         for i, (rs, bs) in enumerate(zip(res["results"], res["base"])):
             for j, (r, b) in enumerate(zip(rs, bs)):
                 if r != b:
-                    out.append((f"thread-result-differs-on-first-use/{case['loads'][i][j]['kind']}", f"thread {i} item {j}: {H.canon(r)[:150]} != sequential {H.canon(b)[:150]}"))
+                    out.append((f"thread-result-differs-on-first-use/{case['loads'][i][j]['kind']}", f"thread {i} item {j}: {H.canon(r)[:150]} != sequential {H.canon(b)[:150]}" + (" :: unusual exceptions: " + " || ".join(res.get("errlog", [])[:2]) if res.get("errlog") else "")))
                     break
             if out:
                 break
@@ -257,7 +260,7 @@ def check_case(case):
         for i, rs in enumerate(results):
             for j, (r, bad) in enumerate(rs):
                 if r != base[i][j]:
-                    out.append((f"thread-result-differs/{loads[i][j]['kind']}", f"thread {i} item {j}: {H.canon(r)[:150]} != sequential {H.canon(base[i][j])[:150]}"))
+                    out.append((f"thread-result-differs/{loads[i][j]['kind']}", f"thread {i} item {j}: {H.canon(r)[:150]} != sequential {H.canon(base[i][j])[:150]}" + (" :: unusual exceptions: " + " || ".join(ERRLOG[-2:]) if ERRLOG else "")))
                 for b in bad:
                     out.append(("input-modified-under-threads", b))
             if out:
@@ -484,6 +487,15 @@ def _threads_fresh_main():
     loads = case["loads"]
     warnings.simplefilter("ignore")
     warnings.showwarning = _no_show
+    # Modules are imported, and the harness's own class index is built, before the threads start: concurrent *imports*
+    # are Python's business (a thread can be handed a partially initialised module, and iterating its namespace then
+    # fails with "dictionary changed size during iteration") - the first *use* of the classes is what the threads race on.
+    # Neither step reads a class-level table of the library.
+    import ofxtools.Client, ofxtools.Parser, ofxtools.Types, ofxtools.models.base, ofxtools.header, ofxtools.utils  # noqa: F401,E401
+    from pbt.checks import c04  # noqa: F401
+
+    M.universe()
+    M.all_classes_including_bases()
     results = [None] * len(loads)
     barrier = threading.Barrier(len(loads))
 
@@ -499,7 +511,7 @@ def _threads_fresh_main():
         t.join(900)
     sys.setswitchinterval(0.005)
     base = [[json.loads(H.canon(run_item(it)[0])) for it in load] for load in loads]
-    print(json.dumps({"results": results, "base": base}))
+    print(json.dumps({"results": results, "base": base, "errlog": ERRLOG}))
 
 
 if __name__ == "__main__":
